@@ -200,7 +200,12 @@ class Planner:
         M["x"] = x
         M["terms"].append(x)
         M["geos"].append(x)
-        for name in r.sample(GEO_SCALAR, r.randint(0, 3)):
+        if self.cfg.get("mirror_geo") and self.meshes and self.meshes[0] is not M and self.meshes[0].get("geo_names") is not None:
+            names = list(self.meshes[0]["geo_names"])  # the same quantities on every mesh
+        else:
+            names = r.sample(GEO_SCALAR, r.randint(0, 3) if not self.cfg.get("mirror_geo") else r.randint(1, 3))
+        M["geo_names"] = names
+        for name in names:
             gq = self.call("ufl." + name, self.ref(M["slot"]), kind="geo")
             if gq is not None:
                 M["terms"].append(gq)
@@ -476,7 +481,14 @@ class Planner:
         consts = [c for m in allM for c in m["consts"] if self.shape(c) == ()]
         coefs = [c for m in allM for c in m["coefs"] if self.shape(c) == ()]
         geos = [q for m in allM for q in m["geos"] if self.shape(q) == ()]
-        for p in (consts, coefs, geos, consts + geos, consts + coefs):
+        if len(allM) > 1 and r.random() < 0.5:
+            # components of the spatial coordinate of each mesh
+            for m in allM:
+                if m.get("x0") is None:
+                    m["x0"] = self.call("operator.getitem", self.ref(m["x"]), 0)
+                if m.get("x0") is not None:
+                    geos.append(m["x0"])
+        for p in (consts, coefs, geos, geos, consts + geos, consts + coefs):
             if len(p) >= 2:
                 pools.append(p)
         if not pools:
